@@ -178,14 +178,7 @@ class Proof:
         if r == "unsat":
           self.ctx._rec(kh.QResult(name, "unsat", dt))
           return "unsat", None
-    if self.unproved:
-      self.full.s.set("timeout", 5000)
-    r, dt, m = self.full._check([guard, core.Not(goal)])
-    self.full.s.set("timeout", self.timeout_ms)
-    self.ctx.log(f"goal {name}: {r} {dt:.2f}s")
-    if r == "unsat":
-      self.ctx._rec(kh.QResult(name, "unsat", dt))
-      return "unsat", None
+    # concrete candidates first: with every input pinned the query is decided at once
     cands = []
     self.full.s.set("timeout", 3000)
     try:
@@ -197,6 +190,21 @@ class Proof:
             break
     finally:
       self.full.s.set("timeout", self.timeout_ms)
+    if cands:
+      self.ctx.log(f"goal {name}: counterexample at {len(cands)} pinned input(s)")
+      return "sat", cands
+    if self.ctx.violations:
+      # the unit already has a reproduced violation: do not spend the budget on further open goals
+      self.ctx.notes.append(f"{name}: not decided (unit already has a reproduced violation)")
+      return "skipped", None
+    if self.unproved:
+      self.full.s.set("timeout", 5000)
+    r, dt, m = self.full._check([guard, core.Not(goal)])
+    self.full.s.set("timeout", self.timeout_ms)
+    self.ctx.log(f"goal {name}: {r} {dt:.2f}s")
+    if r == "unsat":
+      self.ctx._rec(kh.QResult(name, "unsat", dt))
+      return "unsat", None
     if r == "sat":
       cands.append(guard)
     return ("sat", cands) if cands else ("unknown", None)
@@ -239,10 +247,14 @@ class Proof:
         self.ctx.error(f"known-finding when-clause for {key} failed to evaluate: {ex}")
         return False
       st, g = self._decide(name + "#outside-known", goal, z3.And(core.zbool(guard), z3.Not(w)), using)
+      if st == "skipped":
+        return False
       if st == "unknown":
         return self._inconclusive(name + "#outside-known", t0)
       if st == "unsat":
         st_in, g_in = self._decide(name, goal, z3.And(core.zbool(guard), w), using)
+        if st_in == "skipped":
+          return False
         if st_in == "unknown":
           return self._inconclusive(name, t0)
         if st_in == "sat":
@@ -258,6 +270,8 @@ class Proof:
     st, g = self._decide(name, goal, guard, using)
     if st == "unsat":
       return True
+    if st == "skipped":
+      return False
     if st == "sat":
       self._report_sat(name, goal, g, names, desc)
       return False
@@ -459,6 +473,18 @@ def validate_geometry(seed, n=40):
       dd, t1, t2 = seg_closest_np(d.geom_xpos[0], a1v, d.geom_xpos[1], a2v)
       ncap[0] += int(abs(t1) == 1) + int(abs(t2) == 1)
       bad += _sphere_pair_report(d.geom_xpos[0] + t1 * a1v, r1, d.geom_xpos[1] + t2 * a2v, r2, c.dist, c.pos, c.frame[:3], "mujoco capsule-capsule")
+    # plane - box: every MuJoCo contact is one of the 8 corner candidates
+    bs = rng.uniform(0.05, 0.3, 3)
+    m, d = contacts(f'<mujoco><worldbody><geom type="plane" size="5 5 .1" quat="{rq()}" margin="1"/><body pos="{p2[0]} {p2[1]} {p2[2]}" quat="{rq()}"><freejoint/><geom type="box" size="{bs[0]} {bs[1]} {bs[2]}"/></body></worldbody></mujoco>')
+    nb, Rb = d.geom_xmat[0].reshape(3, 3)[:, 2], d.geom_xmat[1].reshape(3, 3)
+    for c in d.contact:
+      okc = False
+      for i in range(8):
+        corner = d.geom_xpos[1] + Rb @ np.array([bs[0] if i & 1 else -bs[0], bs[1] if i & 2 else -bs[1], bs[2] if i & 4 else -bs[2]])
+        wd = float(np.dot(corner - d.geom_xpos[0], nb))
+        okc |= abs(c.dist - wd) < 1e-6 and np.abs(c.pos - (corner - 0.5 * nb * wd)).max() < 1e-6
+      if not okc or np.abs(c.frame[:3] - nb).max() > 1e-6:
+        bad.append(f"mujoco plane-box contact (dist {c.dist}) is not a box-corner contact")
     # plane - sphere / plane - capsule on a tilted plane
     pq = rq()
     m, d = contacts(f'<mujoco><worldbody><geom type="plane" size="5 5 .1" quat="{pq}" margin="1"/><body pos="{p2[0]} {p2[1]} {p2[2]}"><freejoint/><geom size="{r2}"/></body></worldbody></mujoco>')
@@ -945,17 +971,13 @@ def unit_capsule_capsule(ctx):
 
   X, Y, Z = (1, 0, 0), (0, 1, 0), (0, 0, 1)
   D1 = ("3/5", "4/5", 0)
-  pins_np = [
-    pin((0, 0, 0), X, "1", (0, 0, 1), Y, "1"),  # crossing, interior / interior
-    pin((0, 0, 0), X, "1", (3, 0, 1), Y, "1"),  # x1 clamped at +1
-    pin((0, 0, 0), X, "1", (-3, 0, 1), Y, "1"),  # x1 clamped at -1
-    pin((0, 0, 0), X, "1", (0, 3, 1), Y, "1"),  # x2 clamped at -1
-    pin((0, 0, 0), X, "1", (0, -3, 1), Y, "1"),  # x2 clamped at +1
-    pin((0, 0, 0), X, "1", (3, 3, 1), D1, "1"),  # both clamped, skew
-    pin((0, 0, 0), X, "2", (1, -3, 1), D1, "1/2"),
-    pin((0, 0, 0), X, "1", (-3, -3, 1), D1, "1"),
-    pin((1, 1, 0), D1, "1", (0, 0, 2), X, "3"),
-  ]
+  pins_np = [pin((0, 0, 0), X, "1", (0, 0, 1), Y, "1"), pin((1, 1, 0), D1, "1", (0, 0, 2), X, "3")]
+  # skew axes (a1.a2 != 0) with the second capsule placed all around the first: every clamp combination at both ends
+  for ax2v, h2v in ((D1, "1"), (("3/5", "-4/5", 0), "1/2"), (("-4/5", "3/5", 0), "2")):
+    for cx in (-3, -1, 0, 1, 3):
+      for cy in (-3, 0, 3):
+        if (cx, cy) != (0, 0):
+          pins_np.append(pin((0, 0, 0), X, "1", (cx, cy, 1), ax2v, h2v))
   pins_par = [pin((0, 0, 0), X, "1", (0, 0, 1), X, "1"), pin((0, 0, 0), X, "1", (3, 0, 1), X, "1"), pin((0, 0, 0), X, "2", ("1/2", 0, 1), X, "1/2"), pin((0, 0, 0), Z, "1", (0, 1, -3), Z, "1")]
   names = {"r1": r1, "r2": r2, "half_length1": h1, "half_length2": h2, "margin": margin, "ref_det": DET}
   if len(calls) != 5:
@@ -966,7 +988,7 @@ def unit_capsule_capsule(ctx):
   # ---------------------------------------------------------------- non-parallel branch
   C = calls[0]
   P = Proof(ctx, base + [nonpar], names, rp, prefix="nonparallel/", pins=pins_np)
-  ctx.reach(P.full, "twin:nonparallel", pins_np[5])
+  ctx.reach(P.full, "twin:nonparallel", pins_np[3])
   e = C["env"]
   x1, x2 = R(e["x1"]), R(e["x2"])
   P.lemma("cauchy-schwarz", DET == dot(cross(a1, a2), cross(a1, a2)), using=defs)
@@ -1028,6 +1050,54 @@ def unit_capsule_capsule(ctx):
   P2.goal("output/first-candidate-kept", z3.And(dist[0] == Cj["d"], veq(pos[0], Cj["pos"]), veq(nrm[0], Cj["n"])), z3.And(g, Cj["d"] <= margin), using=["not-nonparallel-branch"], desc="capsule_capsule (parallel): the first end-point candidate within margin is not returned as contact 0")
 
 
+# ------------------------------------------------------------------------------------------------ plane_box
+
+
+def goal_plane_box(spec, pre, post):
+  n, p = _f32(_argv(spec, "plane_normal")), _f32(_argv(spec, "plane_pos"))
+  bp, Rm, sz = _f32(_argv(spec, "box_pos")), _f32(_argv(spec, "box_rot")).reshape(3, 3), _f32(_argv(spec, "box_size"))
+  msgs = []
+  scale = 1 + np.abs(bp).max() + np.abs(p).max() + np.abs(Rm).max() * np.abs(sz).max()
+  if np.abs(post["normal_out"][0].astype(np.float64) - n).max() > TOL:
+    msgs.append(f"normal {post['normal_out'][0].tolist()} is not the plane normal")
+  for i in range(8):
+    loc = np.array([sz[0] if i & 1 else -sz[0], sz[1] if i & 2 else -sz[1], sz[2] if i & 4 else -sz[2]])
+    corner = bp + Rm @ loc
+    wd = float(np.dot(corner - p, n))
+    if abs(float(post["dist_out"][i]) - wd) > TOL * scale:
+      msgs.append(f"dist[{i}] {float(post['dist_out'][i])} but corner {corner.tolist()} is {wd} from the plane")
+    if np.abs(post["pos_out"][i].astype(np.float64) - (corner - 0.5 * n * wd)).max() > TOL * scale:
+      msgs.append(f"pos[{i}] {post['pos_out'][i].tolist()} is not midway between corner {corner.tolist()} and the plane")
+  return (not msgs), "plane_box: " + ("; ".join(msgs[:3]) or "ok")
+
+
+def unit_plane_box(ctx):
+  from mujoco_warp._src import collision_primitive_core as cpc
+
+  ctx.encode(cpc.plane_box)
+  ctx.bound(note="8 corners (concrete loop); plane, box pose (any 3x3 matrix) and half sizes symbolic")
+  ctx.assume("plane normal is a unit vector", "floats are reals")
+  ctx.notes.append("plane_box returns all 8 corner candidates; which (up to 4) are recorded is decided by the caller (outside)")
+  kt, gi = run_wrapper("k_plane_box", {"dist_out": [8], "pos_out": [8], "normal_out": [1]})
+  n, p, bp, sz = vec_arg(kt, "plane_normal"), vec_arg(kt, "plane_pos"), vec_arg(kt, "box_pos"), vec_arg(kt, "box_size")
+  Rm = [R(c) for c in kt.args["box_rot"].c]
+  rp = lib.make_replay(ctx, kt, LOC + "k_plane_box", "plane_box", "goal", goal="checks.geom_c20:goal_plane_box")
+  pins = [z3.And(pin_vec(n, nn), pin_vec(p, (0, 0, 0)), pin_vec(bp, (1, 2, 3)), pin_vec(sz, (1, 2, "1/2")), pin_vec(Rm, rr)) for nn, rr in [((0, 0, 1), (1, 0, 0, 0, 1, 0, 0, 0, 1)), (("3/5", 0, "4/5"), (0, -1, 0, 1, 0, 0, 0, 0, 1)), ((0, 1, 0), ("3/5", "-4/5", 0, "4/5", "3/5", 0, 0, 0, 1))]]
+  P = Proof(ctx, kt.bg + [dot(n, n) == 1], {}, rp, pins=pins)
+  ctx.reach(P.full, "twin:unit-normal", pins[1])
+  P.goal("normal", veq(out_vec(kt, "normal_out", 0, 3), n), desc="plane_box: returned normal is not the plane normal")
+  for i in range(8):
+    loc = [sz[0] if i & 1 else -sz[0], sz[1] if i & 2 else -sz[1], sz[2] if i & 4 else -sz[2]]
+    corner = [bp[r] + sum(Rm[3 * r + c] * loc[c] for c in range(3)) for r in range(3)]
+    dist = R(kt.post("dist_out", i))
+    pos = out_vec(kt, "pos_out", i, 3)
+    P.goal(f"corner{i}/dist", dist == dot(sub(corner, p), n), desc=f"plane_box: dist[{i}] is not the signed distance of box corner {i} to the plane")
+    foot = sub(corner, scl(n, dist))
+    P.lemma(f"foot{i}", dot(sub(foot, p), n) == dot(sub(corner, p), n) - dist * dot(n, n), using=[])
+    P.goal(f"corner{i}/foot-on-plane", dot(sub(foot, p), n) == 0, desc=f"plane_box: the point at distance dist[{i}] below corner {i} is not on the plane")
+    P.goal(f"corner{i}/pos-midway", veq(scl(pos, 2), add(corner, foot)), desc=f"plane_box: pos[{i}] is not midway between corner {i} and the plane")
+
+
 def unit_validate(ctx):
   bad = validate_geometry(ctx.seed, 60 if ctx.tier == "quick" else 300)
   for b in bad[:5]:
@@ -1048,5 +1118,6 @@ def units(include_frame=True):
     ("geometry/sphere_capsule", unit_sphere_capsule),
     ("geometry/plane_capsule", unit_plane_capsule),
     ("geometry/capsule_capsule", unit_capsule_capsule),
+    ("geometry/plane_box", unit_plane_box),
   ]
   return u
